@@ -19,7 +19,7 @@ type CustomOpts struct {
 	MaxFaults int
 }
 
-var hookKinds = []string{"extend", "extendExt", "extendErr", "extendCtx", "extendConv", "extendRegex", "method", "methodErr", "mapFunc", "mapFuncErr", "mapNoSource", "underlying", "underlyingMethod", "extendErrCtx", "extendSame", "extendExtCtxRegex", "delegate", "delegateErr", "mapWhole", "mapWholePtr", "underlyingErr"}
+var hookKinds = []string{"extend", "extendExt", "extendErr", "extendCtx", "extendConv", "extendRegex", "method", "methodErr", "mapFunc", "mapFuncErr", "mapNoSource", "underlying", "underlyingMethod", "extendErrCtx", "extendSame", "extendExtCtxRegex", "delegate", "delegateErr", "mapWhole", "mapWholePtr", "underlyingErr", "basicErr"}
 
 // CustomCase builds one case mixing automatic rules with custom functions.
 func CustomCase(r *rand.Rand, name string, o CustomOpts) *Case {
@@ -55,7 +55,11 @@ func CustomCase(r *rand.Rand, name string, o CustomOpts) *Case {
 	for i := 1; i <= npairs; i++ {
 		kind := hookKinds[r.Intn(len(hookKinds))]
 		if o.Fallible && i == 1 {
-			kind = []string{"extendErr", "methodErr", "mapFuncErr", "extendErrCtx", "delegateErr", "underlyingErr"}[r.Intn(6)]
+			kind = []string{"extendErr", "methodErr", "mapFuncErr", "extendErrCtx", "delegateErr", "underlyingErr", "basicErr"}[r.Intn(7)]
+		}
+		if o.WrapLevel == "meth" {
+			// wrapping configured on the METHOD: only positions that are converted inline by that method
+			kind = []string{"basicErr", "mapFuncErr", "basicErr"}[r.Intn(3)]
 		}
 		if kind == "extendConv" && o.Format != "struct" {
 			kind = "extend"
@@ -189,6 +193,36 @@ func CustomCase(r *rand.Rand, name string, o CustomOpts) *Case {
 			fields[tf] = vref.FieldSpec{Path: []string{sf}, Func: "fn:" + fn}
 			specFuncs = append(specFuncs, &vref.FuncSpec{Key: "fn:" + fn, Kind: "map", Roles: []string{"source"}})
 			callables["fn:"+fn] = "conv." + fn
+		case "basicErr":
+			// a fallible extend function between named BASIC types, also used where the target is a pointer to the basic
+			// (the T -> *U rule wraps the call)
+			bs := decl(fmt.Sprintf("BS%d", i), Basic("string"))
+			bt := decl(fmt.Sprintf("BT%d", i), Basic("string"))
+			fn := fmt.Sprintf("BConv%d", i)
+			fmt.Fprintf(&funcsLocal, "func %s(v ty.BS%d) (ty.BT%d, error) {\n\tvar id int64\n\tfmt.Sscanf(string(v), \"s%%d\", &id)\n\tif err := vref.Fail(id); err != nil {\n\t\treturn \"\", err\n\t}\n\treturn ty.BT%d(\"b<\" + string(v) + \">\"), nil\n}\n\n", fn, i, i, i)
+			convLines = append(convLines, "extend "+fn)
+			specFuncs = append(specFuncs, &vref.FuncSpec{Key: "fn:" + fn, Kind: "extend", Roles: []string{"source"}})
+			callables["fn:"+fn] = "conv." + fn
+			fallible = true
+			bpos := []string{"V", "P", "LP", "MP", "L", "PP"}
+			r.Shuffle(len(bpos), func(a, b int) { bpos[a], bpos[b] = bpos[b], bpos[a] })
+			for _, bp := range bpos[:1+r.Intn(3)] {
+				f := fmt.Sprintf("B%s%d", bp, i)
+				switch bp {
+				case "V":
+					sS.Fields, tS.Fields = append(sS.Fields, F(f, Named(bs))), append(tS.Fields, F(f, Named(bt)))
+				case "P":
+					sS.Fields, tS.Fields = append(sS.Fields, F(f, Named(bs))), append(tS.Fields, F(f, Ptr(Named(bt))))
+				case "LP":
+					sS.Fields, tS.Fields = append(sS.Fields, F(f, Slice(Named(bs)))), append(tS.Fields, F(f, Slice(Ptr(Named(bt)))))
+				case "MP":
+					sS.Fields, tS.Fields = append(sS.Fields, F(f, Map(Basic("string"), Named(bs)))), append(tS.Fields, F(f, Map(Basic("string"), Ptr(Named(bt)))))
+				case "L":
+					sS.Fields, tS.Fields = append(sS.Fields, F(f, Slice(Named(bs)))), append(tS.Fields, F(f, Slice(Named(bt))))
+				case "PP":
+					sS.Fields, tS.Fields = append(sS.Fields, F(f, Ptr(Named(bs)))), append(tS.Fields, F(f, Ptr(Named(bt))))
+				}
+			}
 		case "mapWhole":
 			// map . FIELD | FUNC: the function receives the whole source value
 			fn := fmt.Sprintf("Whole%d", i)
@@ -268,7 +302,7 @@ func CustomCase(r *rand.Rand, name string, o CustomOpts) *Case {
 				tS.Fields = append(tS.Fields, F(f, Named(tid)), F(f+"L", Slice(Named(tid))))
 			}
 		}
-		if strings.HasPrefix(kind, "map") || strings.HasPrefix(kind, "underlying") {
+		if strings.HasPrefix(kind, "map") || strings.HasPrefix(kind, "underlying") || kind == "basicErr" {
 			continue
 		}
 		// positions of the pair inside S / T
@@ -343,12 +377,12 @@ func CustomCase(r *rand.Rand, name string, o CustomOpts) *Case {
 	}
 	sS.Fields = append(sS.Fields, F("Plain", Basic("int")))
 	tS.Fields = append(tS.Fields, F("Plain", Basic("int")))
-	if r.Intn(3) == 0 {
+	if o.WrapLevel != "meth" && r.Intn(3) == 0 {
 		sS.Fields = append(sS.Fields, F("Rec", Ptr(Named(S))))
 		tS.Fields = append(tS.Fields, F("Rec", Ptr(Named(T))))
 		kindsUsed["recursive"] = true
 	}
-	if r.Intn(3) == 0 {
+	if o.WrapLevel != "meth" && r.Intn(3) == 0 {
 		// mutual recursion through a second struct, placed BEFORE the hooked fields: the helper for the pointer is
 		// built before the helper it calls learns that it has to return an error
 		ms := decl("MutS", Struct(F("Back", Ptr(Named(S))), F("K", Basic("int"))))
@@ -382,9 +416,12 @@ func CustomCase(r *rand.Rand, name string, o CustomOpts) *Case {
 		wrapLine = "wrapErrorsUsing vcase/errs"
 	}
 	if wrapLine != "" {
-		if o.WrapLevel == "cli" {
+		switch o.WrapLevel {
+		case "cli":
 			c.Args = append(c.Args, "-g", wrapLine)
-		} else {
+		case "meth":
+			methLines = append(methLines, wrapLine)
+		default:
 			convLines = append(convLines, wrapLine)
 		}
 	}
@@ -425,7 +462,7 @@ func CustomCase(r *rand.Rand, name string, o CustomOpts) *Case {
 		dm.Spec.WrapMode = wm
 		cv.Methods = append(cv.Methods, dm)
 	}
-	if r.Intn(2) == 0 {
+	if o.WrapLevel != "meth" && r.Intn(2) == 0 {
 		// a list method that reuses M0 (needs the same contexts)
 		p2 := append([]Param{}, params...)
 		var lines2 []string
